@@ -440,8 +440,11 @@ def check_bytes_codec(ctx):
     tb, tp = model.method("SecureField", "to_basic"), model.method("SecureField", "to_python")
     wk = set()
     for r in returns_of(an, tb):
-        if isinstance(r.ast.value, ast.Dict):
-            wk |= {k.value for k in r.ast.value.keys if isinstance(k, ast.Constant)}
+        cands = [r.ast.value] if isinstance(r.ast.value, ast.Dict) else [
+            pl for k, pl in (value_sources(tb, r.ast.value, r) if isinstance(r.ast.value, ast.Name) else []) if k == "expr"]
+        for dv_ in cands:
+            if isinstance(dv_, ast.Dict):
+                wk |= {k.value for k in dv_.keys if isinstance(k, ast.Constant)}
     rk = set()
     for x in ast.walk(tp.node):
         if isinstance(x, ast.Call) and isinstance(x.func, ast.Attribute) and x.func.attr == "get" and x.args and isinstance(x.args[0], ast.Constant):
